@@ -65,7 +65,7 @@ Init == l = 1 /\ TLCSet(1, 0) /\ Rec[1].e = "hist"
 
 \* which listed properties a wrong skip breaches
 WrongSkipProps(t) ==
-  (IF rec[t].k # "full" /\ cause[t] \in {"fail", "cancel", "crash", "corrupt"} THEN {"C05"} ELSE {"C02"}) \cup Focus
+  {"C02"} \cup (IF rec[t].k # "full" /\ cause[t] \in {"fail", "cancel", "crash", "corrupt"} THEN {"C05"} ELSE {}) \cup Focus
 
 Invoke(e) ==
   LET t == e.m.t
